@@ -209,14 +209,17 @@ class HandlerFacts:
 
 
 def _advances_own_time(fn: ast.FunctionDef) -> bool:
-    """self._event_time += x   or   self._event_time = self._event_time + x"""
+    """self._event_time += x   or   self._event_time = self._event_time + x  (the sum possibly bound to a local first)"""
+    from .resolve import Resolver
+    R = None
     for n in ast.walk(fn):
         if isinstance(n, ast.AugAssign) and self_attr(n.target) == "_event_time" and isinstance(n.op, ast.Add):
             return True
-        if isinstance(n, ast.Assign) and len(n.targets) == 1 and self_attr(n.targets[0]) == "_event_time" \
-                and isinstance(n.value, ast.BinOp) and isinstance(n.value.op, ast.Add) \
-                and "_event_time" in (self_attr(n.value.left), self_attr(n.value.right)):
-            return True
+        if isinstance(n, ast.Assign) and len(n.targets) == 1 and self_attr(n.targets[0]) == "_event_time":
+            R = R or Resolver(fn)
+            v = R.res(n.value)
+            if isinstance(v, ast.BinOp) and isinstance(v.op, ast.Add) and "_event_time" in (self_attr(v.left), self_attr(v.right)):
+                return True
     return False
 
 
